@@ -418,6 +418,8 @@ func getAttrs(attrs attribute.Set) ([]string, []string) {
 		for itr.Next() {
 			kv := itr.Attribute()
 			key := model.EscapeName(string(kv.Key), model.NameEscapingScheme)
+			// EscapeName follows the metric name rule: ':' is legal there but not in label names.
+			key = strings.ReplaceAll(key, ":", "_")
 			if _, ok := keysMap[key]; !ok {
 				keysMap[key] = []string{kv.Value.Emit()}
 			} else {
